@@ -62,6 +62,14 @@ def run(tier, seed, replay):
     pathsm, leftm = graphm.cover(seed=seed, max_len=40)
     behsm = [graphm.behaviour(p) for p in pathsm] + [graph2.behaviour(p) for p in paths2]
     nm, sm, dm = udprelay.replay(v, binary, behsm, variants[1:], seed, "lifecycle replay")
+    # the batched uplink itself (UpBatch: every queued packet packed, one sendmmsg) with Stop at any point of a batch
+    gb, _ = udprelay.model(dict(Sess='{"s1"}', Targets='{"ip","rej"}', Domains="{}", MaxSend=2 if not big else 3, ChanCap=2 if not big else 3, MaxReply=1, MaxTimer=0, UpBatch="TRUE"),
+                           props=False, edges=True)
+    graphb = udprelay.urgent_filter(vlib.Graph(gb))
+    pathsb, leftb = graphb.cover(seed=seed, max_len=40, max_paths=None if big else 150, prefer=lambda e: e[1]["n"] == "UpPack")
+    nb, sb, db = udprelay.replay(v, binary, [graphb.behaviour(p) for p in pathsb], variants[1:], seed, "batched uplink lifecycle replay")
+    v.coverage["replay_graphs"].append({"relay": "batched uplink (sendmmsg) with Stop", "distinct": gb.distinct, "edges": len(graphb.edges), "paths": len(pathsb), "uncovered_edges": leftb})
+    nm, sm, dm = nm + nb, sm + sb, max(dm, db)
     n1, s1, d1 = n1 + nm, s1 + sm, max(d1, dm)
     # (2b) session relay (Shadowsocks 2022 server; minimum NAT timeout 61 s): lifecycle and Stop
     gs, _ = udprelay.model(dict(Sess='{"s1"}', Targets='{"ip","rej"}', Domains="{}", MaxSend=1, ChanCap=1, MaxReply=1, MaxTimer=0, Keyed='"sid"'), props=False, edges=True)
